@@ -205,4 +205,10 @@ def literal(scanner: Scanner):
 def is_known_selector_colon(scanner: Scanner, state: ScanState):
     "Check if current state is a known selector context for `:` delimiter"
     # Either inside expression like `(min-width: 10px)` or pseudo-element `::before`
-    return state.expression or scanner.eat_while(Chars.Colon)
+    if state.expression or scanner.eat_while(Chars.Colon):
+        return True
+
+    # ...or a pseudo-selector that starts a token, like `:root` or `:hover`:
+    # there is no name such a colon could delimit
+    ch = scanner.peek()
+    return state.start == -1 and state.property_start == -1 and bool(ch) and (ch.isalpha() or ch in '-_')
